@@ -395,6 +395,7 @@ pub fn run(opts: &Opts) -> Report {
     );
     let mut rng = Rng::new(opts.seed.wrapping_mul(23_000_009));
     collections_stream(&mut rep, &mut rng, if opts.thorough() { 20000 } else { 2000 });
+    crate::fam::query2::check_nocase(&mut rep);
     let n = if opts.thorough() { 1500 } else { 150 };
     for i in 0..n {
         let mut g = Gen::new(opts.seed.wrapping_mul(29_000_017).wrapping_add(i as u64));
